@@ -104,6 +104,10 @@ fn bind_rx(addr: SocketAddr) -> std::io::Result<StdUdp> {
 ///   `Env` is dropped, whether its socket is currently open or not.
 static NEXT_PORT: std::sync::atomic::AtomicU32 = std::sync::atomic::AtomicU32::new(0);
 static RESERVED: std::sync::Mutex<Option<std::collections::HashSet<u16>>> = std::sync::Mutex::new(None);
+/// Ports released by a dropped `Env`, with the time of release: a datagram a worker sent just before it
+/// dropped its `Env` may still sit in that CPU's loopback backlog, so the port is not handed out again
+/// for a while (on top of the barrier `Env::drop` runs before it closes its sockets).
+static COOLING: std::sync::Mutex<Vec<(u16, std::time::Instant)>> = std::sync::Mutex::new(Vec::new());
 
 pub const SLICES: u32 = 40;
 const SLICE_LEN: u32 = 500;
@@ -139,6 +143,13 @@ fn fresh_rx() -> (StdUdp, SocketAddr) {
             None => (12_000 + (std::process::id() % 97) * 200 + k % 19_000) % 20_000 + 10_000,
         } as u16;
         {
+            let mut c = COOLING.lock().unwrap();
+            c.retain(|(_, t)| t.elapsed() < std::time::Duration::from_millis(1500));
+            if c.iter().any(|(p, _)| *p == port) {
+                continue;
+            }
+        }
+        {
             let mut r = RESERVED.lock().unwrap();
             if !r.get_or_insert_with(Default::default).insert(port) {
                 continue;
@@ -154,7 +165,18 @@ fn fresh_rx() -> (StdUdp, SocketAddr) {
 
 impl Drop for Env {
     fn drop(&mut self) {
+        // everything this worker sent has been delivered before its receiver sockets go away
+        if !std::thread::panicking() {
+            let _ = self.try_barrier();
+        }
         self.rx.clear();
+        {
+            let mut c = COOLING.lock().unwrap();
+            let now = std::time::Instant::now();
+            for a in &self.rx_addr {
+                c.push((a.port(), now));
+            }
+        }
         if let Some(r) = RESERVED.lock().unwrap().as_mut() {
             for a in &self.rx_addr {
                 r.remove(&a.port());
@@ -317,6 +339,12 @@ impl Env {
 
     /// One sentinel round trip through this CPU's loopback backlog.
     fn barrier(&mut self) {
+        if !self.try_barrier() {
+            panic!("MACHINERY: barrier sentinel never arrived");
+        }
+    }
+
+    fn try_barrier(&mut self) -> bool {
         self.sentinel_no += 1;
         let mut tag = [0u8; 24];
         tag[..8].copy_from_slice(b"\xffSENTNL\xff");
@@ -326,11 +354,11 @@ impl Env {
         let deadline = std::time::Instant::now() + std::time::Duration::from_millis(2000);
         loop {
             match self.sentinel_rx.recv_from(&mut self.buf) {
-                Ok((k, _)) if k == 24 && self.buf[..24] == tag => break,
+                Ok((k, _)) if k == 24 && self.buf[..24] == tag => return true,
                 Ok(_) => continue,
                 Err(_) => {
                     if std::time::Instant::now() > deadline {
-                        panic!("MACHINERY: barrier sentinel never arrived");
+                        return false;
                     }
                     std::thread::yield_now();
                 }
